@@ -324,7 +324,7 @@ static void raw_dom(const xc::DOMNode* n, std::string& out)
     }
 }
 
-class Recorder : public xc::DefaultHandler, public xc::LexicalHandler
+class Recorder : public xc::DefaultHandler
 {
 public:
     std::string out; bool inDTD; Recorder() : inDTD(false) {}
@@ -457,7 +457,7 @@ static unsigned lcg(unsigned& s) { s = s * 1664525u + 1013904223u; return s >> 8
 
 // forwards SAX2 events to a document builder, re-chunking every characters() event at random
 // positions (empty chunks included)
-class Rechunker : public xc::DefaultHandler, public xc::LexicalHandler
+class Rechunker : public xc::DefaultHandler
 {
 public:
     xc::ContentHandler* ch; xc::LexicalHandler* lh; xc::DTDHandler* dh; unsigned seed; unsigned long calls, pieces;
